@@ -494,10 +494,41 @@ Theorem AE_accepts_exactly_the_published_rule c : valid_AE c = true <-> c = [] \
 Proof. exact (valid_AE_iff_spec c). Qed.
 Print Assumptions AE_accepts_exactly_the_published_rule.
 
+(* MX: format only (RFC of persons and companies) *)
+Theorem MX_accepts_exactly_the_published_rule c : valid_MX c = true <-> c = [] \/ Spec_MX c.
+Proof. exact (valid_MX_iff_spec c). Qed.
+Print Assumptions MX_accepts_exactly_the_published_rule.
+
 Example published_rules_are_satisfiable :
   Spec_NL (bs "029729975B45") /\ Spec_GB_commercial (bs "930000297").
 Proof.
   split.
   - destruct (proj1 (valid_NL_iff_spec (bs "029729975B45")) ltac:(vm_compute; reflexivity)) as [E|S]; [discriminate E | exact S].
   - apply (gb_commercial_iff_spec_9 (bs "930000297") eq_refl). split; vm_compute; reflexivity.
+Qed.
+
+Example more_published_rules_are_satisfiable :
+  Spec_AT (bs "U03082467") /\ Spec_DE (bs "767127680") /\ Spec_CO (bs "497465072") /\ Spec_CO (bs "2917034236") /\
+  Spec_BR (bs "75432319487558") /\ Spec_IN (bs "28AYQJU1485FNZH") /\ Spec_AE (bs "526018159083016") /\
+  Spec_MX (bs "KGP9907517OC") /\ Spec_GB (bs "957117743") /\ Spec_GB (bs "GD499") /\ Spec_GB (bs "HA500") /\
+  Spec_ES (bs "Q2826000H") /\ Spec_ES (bs "A58818501") /\
+  Spec_ES_either_form (bs "Y6031372G") /\ Spec_ES_either_form (bs "54362315K").
+Proof.
+  assert (Q : forall (S : bytes -> Prop) (v : bytes -> bool) c,
+             (forall c, v c = true <-> c = [] \/ S c) -> v c = true -> c <> [] -> S c).
+  { intros S v c H V NE. apply H in V. destruct V as [E|V]; [contradiction | exact V]. }
+  destruct valid_ES_iff_spec_refuted as (_ & _ & _ & S1 & _ & _ & S2).
+  split; [apply (Q _ _ _ valid_AT_iff_spec); [vm_compute; reflexivity | discriminate]|].
+  split; [apply (Q _ _ _ valid_DE_iff_spec); [vm_compute; reflexivity | discriminate]|].
+  split; [apply (Q _ _ _ valid_CO_iff_spec); [vm_compute; reflexivity | discriminate]|].
+  split; [apply (Q _ _ _ valid_CO_iff_spec); [vm_compute; reflexivity | discriminate]|].
+  split; [apply (Q _ _ _ valid_BR_iff_spec); [vm_compute; reflexivity | discriminate]|].
+  split; [apply (Q _ _ _ valid_IN_iff_spec); [vm_compute; reflexivity | discriminate]|].
+  split; [apply (Q _ _ _ valid_AE_iff_spec); [vm_compute; reflexivity | discriminate]|].
+  split; [apply (Q _ _ _ valid_MX_iff_spec); [vm_compute; reflexivity | discriminate]|].
+  split; [apply (Q _ _ _ valid_GB_iff_spec); [vm_compute; reflexivity | discriminate]|].
+  split; [apply (Q _ _ _ valid_GB_iff_spec); [vm_compute; reflexivity | discriminate]|].
+  split; [apply (Q _ _ _ valid_GB_iff_spec); [vm_compute; reflexivity | discriminate]|].
+  split; [exact S1|]. split; [exact S2|].
+  split; apply (Q _ _ _ valid_ES_iff_either_form); first [vm_compute; reflexivity | discriminate].
 Qed.
